@@ -76,7 +76,7 @@ def rrule(r):
 
 class Gen:
     def __init__(self, r, variant="default", auth=False, nconn=None, ops=None, faults=False, ws_share=0.35, timers=True,
-                 malformed=0.04, batches=0.08, allow_close=True):
+                 malformed=0.04, batches=0.08, allow_close=True, single=False):
         self.r = r
         self.variant = variant
         self.auth = auth
@@ -89,6 +89,7 @@ class Gen:
         self.malformed = malformed
         self.batches = batches
         self.allow_close = allow_close
+        self.single = single        # one request per message and per epoll batch (table-refusal oracles are per operation)
         self.next_conn = 0
         self.live = []          # live connection numbers
         self.transport = {}
@@ -277,7 +278,7 @@ class Gen:
                         self.kind.pop(p, None)
                 else:
                     self.steps.pop()
-            elif x < self.malformed + self.batches:
+            elif x < self.malformed + self.batches and not self.single:
                 n = r.randrange(0, 5)
                 self.steps.append(("msg", c, [self.request(c) for _ in range(n)]))
             elif x < 0.30 and self.owner_reply():
@@ -288,7 +289,7 @@ class Gen:
                 self.connect()
             elif x < 0.42 and self.timers:
                 self.steps.append(("advance", r.choice([10 ** 6, 4 * 10 ** 8, 10 ** 9, 2 * 10 ** 9, 6 * 10 ** 9])))
-            elif x < 0.45 and len(self.live) >= 2:
+            elif x < 0.45 and len(self.live) >= 2 and not self.single:
                 # several connections ready in the same batch
                 cs = r.sample(self.live, min(len(self.live), r.randrange(2, 4)))
                 self.steps.append(("batch", [(cc, self.request(cc)) for cc in cs]))
